@@ -13,6 +13,10 @@ CHECKS = {
          "Every concatenation of <=5 (thorough 6) tokens of a 16-token JSON alphabet (plus substitution passes), every number-like string of length <=6 (8) over {+,-,.,0,1,9,e,E}, every single-character escape and a boundary set of \\u escapes incl. all surrogate pair classes and non-hex characters in each position, nesting at 255/256/257 and exhaustive bracket strings under small depth limits, whitespace insertion and single-edit mutants of 20 seed documents, and every Value tree of <=4 (5) nodes over 31 leaves x 10 indent settings is run through the real parser/serialiser; acceptance must equal the reference recogniser's, the parsed value the reference value (members in document order), and parse(serialize(v)) must equal v with the text itself accepted by the reference.",
          "Trusted: the reference recogniser in checks/src/refs/json.rs and std's f64 parsing for grammar-valid numbers. Escapes denoting unpaired surrogates are allowed either way, as the property states. Strings outside the enumerated alphabets/lengths are not covered.",
          "DESIGN.md §3 C13"),
+ "C08": ("E1-sched", "stateless DFS over all thread schedules of the real ThreadPool under a controlled scheduler, preemption-bounded",
+         "For ~90 lifecycle scripts over {start, execute(ok|panic|rendezvous)*, stop, drop} with N in 1..3 workers and up to 3 (thorough 4) tasks, every subset of panicking tasks, every schedule of submitter, workers and recovery thread with at most 1-3 preemptions (per-script bound in the evidence) is executed on the real pool code running on real OS threads with the real std Mutex/mpsc/thread behind a scheduling facade. Each complete schedule is checked: every task started exactly once and finished; the caller returned from stop/drop (deadlock = no enabled thread while the caller is blocked); at quiescence every worker thread has exited (only the detached recovery thread may remain); N rendezvous tasks complete only if N really run concurrently, also after a panic.",
+         "Trusted: the facade's enabledness mirror (a mirror mistake makes a real primitive block, which surfaces as a machinery error, not a verdict) and that scheduling points at sync operations suffice (no unsafe, no other shared state in the pool). Schedules with more preemptions than the completed bound are not covered; sampling beyond the bound is deliberately not done.",
+         "DESIGN.md §3 C08"),
 }
 NOT_YET = {}
 
